@@ -1326,14 +1326,16 @@ class Compiler:
         fallback_body = self.visit(node.fallback)
         fallback_body += self._leave_assignment(names)
 
-        # The failure may have come out of a macro call, before which the
-        # token is reset: then there is no position to report here.  The
-        # failure is handled at this point, so the sites recorded while
-        # it propagated must not show up in a later, unrelated error.
+        # The failure may have come out of a macro call or out of slot
+        # content, before which the token is reset: its position is then
+        # the innermost site that was recorded while it propagated.  The
+        # failure is handled at this point, so those sites must not show
+        # up in a later, unrelated error.
         error_assignment = template(
             "econtext[key] = cls(__exc, "
             "__tokens[__token][1:3] if __token is not None "
-            "else (None, None))\n"
+            "else next((__s[1:3] for __s in rcontext.get('__error__', ()) "
+            "if __s[4] is __exc), (None, None)))\n"
             "rcontext.pop('__error__', None)\n"
             "if handler is not None: handler(__exc)",
             cls=ErrorInfo,
